@@ -4,6 +4,11 @@
 //! drops with the dropping thread, arena order, key order, resolution of every id ever returned) and
 //! evaluate the property itself (capacity honoured, prompt removal, no stale ids, payloads destroyed
 //! on the caller's thread only) with a small reference bookkeeping that is independent of the model.
+//! Creations that FAIL are part of the histories (`OCreateFailing`): a `SoundData` whose `into_sound`
+//! returns `Err` or unwinds, a streaming sound whose decoder cannot seek, a sub-track with an effect whose
+//! `init` unwinds (all before the reservation: nothing may be consumed), and — user code that unwinds
+//! with the key already reserved — a panicking `ModulatorBuilder` / send-track effect `init` (the model's
+//! `X_fail_late`: the slot leaks, on the unchanged tree too; compared with the model, see the notes).
 //! In addition (bottom of the file): a deterministic replay of the schedule of finding F27 (a whole
 //! create between the audio thread's arena removal and its push into the unused ring; repaired in
 //! /repo 38abf69) through the cfg(kira_verif) yield point in kira's resources.rs, compared with the
@@ -12,14 +17,18 @@
 //! monitors only).
 use crate::backend::*;
 use crate::util::*;
-use kira::clock::{ClockHandle, ClockId, ClockSpeed};
+use kira::clock::{ClockHandle, ClockId, ClockSpeed, ClockTime};
 use kira::effect::{Effect, EffectBuilder};
-use kira::info::Info;
+use kira::info::{Info, WhenToStart};
 use kira::listener::ListenerHandle;
+use kira::modulator::lfo::{LfoBuilder, LfoHandle};
+use kira::modulator::tweener::{TweenerBuilder, TweenerHandle};
 use kira::modulator::{Modulator, ModulatorBuilder, ModulatorId};
-use kira::sound::{Sound, SoundData};
+use kira::sound::static_sound::StaticSoundSettings;
+use kira::sound::streaming::{Decoder, StreamingSoundData};
+use kira::sound::{PlaybackState, Sound, SoundData};
 use kira::track::{MainTrackBuilder, SendTrackBuilder, SendTrackHandle, SpatialTrackBuilder, SpatialTrackHandle, TrackBuilder, TrackHandle};
-use kira::{Capacities, Decibels, Frame, PlaySoundError};
+use kira::{Capacities, Decibels, Easing, Frame, Mapping, Parameter, PlaySoundError, Tween, Value};
 use std::collections::{BTreeSet, HashSet};
 use std::sync::atomic::{AtomicBool, AtomicUsize, Ordering};
 use std::sync::{Arc, Mutex, MutexGuard};
@@ -37,26 +46,50 @@ const M_CAP: i128 = 128;
 #[derive(Clone, Copy, PartialEq, Eq, Debug)]
 enum Kind {
 	Modulator,
+	/// kira's own modulators (tweeners and LFOs alternately); removal = the handle is dropped
+	ModBuiltin,
 	Clock,
 	Listener,
 	SoundMain,
 	SoundSub,
+	/// sounds of a spatial sub-track (`SpatialTrackHandle::play`)
+	SoundSpatial,
 	SubTrack,
 	SubTrackNested,
+	/// the mixer's sub-track storage, filled alternately by `add_sub_track` and `add_spatial_sub_track`
+	SubTrackSpatial,
+	/// the sub-track storage of a spatial track (`SpatialTrackHandle::{add_sub_track, add_spatial_sub_track}`)
+	SubTrackOfSpatial,
 	SendTrack,
 }
-const KINDS: [Kind; 8] =
-	[Kind::Modulator, Kind::Clock, Kind::Listener, Kind::SoundMain, Kind::SoundSub, Kind::SubTrack, Kind::SubTrackNested, Kind::SendTrack];
+const KINDS: [Kind; 12] = [
+	Kind::Modulator,
+	Kind::ModBuiltin,
+	Kind::Clock,
+	Kind::Listener,
+	Kind::SoundMain,
+	Kind::SoundSub,
+	Kind::SoundSpatial,
+	Kind::SubTrack,
+	Kind::SubTrackNested,
+	Kind::SubTrackSpatial,
+	Kind::SubTrackOfSpatial,
+	Kind::SendTrack,
+];
 impl Kind {
 	fn name(self) -> &'static str {
 		match self {
 			Kind::Modulator => "modulator",
+			Kind::ModBuiltin => "modulator_builtin",
 			Kind::Clock => "clock",
 			Kind::Listener => "listener",
 			Kind::SoundMain => "sound_main",
 			Kind::SoundSub => "sound_sub",
+			Kind::SoundSpatial => "sound_spatial",
 			Kind::SubTrack => "sub_track",
 			Kind::SubTrackNested => "sub_track_nested",
+			Kind::SubTrackSpatial => "sub_track_spatial",
+			Kind::SubTrackOfSpatial => "sub_track_of_spatial",
 			Kind::SendTrack => "send_track",
 		}
 	}
@@ -65,7 +98,7 @@ impl Kind {
 	}
 	/// SelfReferentialResourceStorage (clocks, modulators, listeners) or ResourceStorage
 	fn selfref(self) -> bool {
-		matches!(self, Kind::Modulator | Kind::Clock | Kind::Listener)
+		matches!(self, Kind::Modulator | Kind::ModBuiltin | Kind::Clock | Kind::Listener)
 	}
 	/// the payload exists before the key is reserved (and is dropped by the caller on rejection)
 	fn prebuild(self) -> bool {
@@ -74,19 +107,48 @@ impl Kind {
 	fn mask(self) -> i128 {
 		match self {
 			Kind::Modulator => M_KEY | M_LEN | M_DROPS | M_ORDER | M_KEYS | M_IDENT | M_RESOLVE | M_CAP,
+			Kind::ModBuiltin => M_KEY | M_LEN | M_IDENT | M_RESOLVE | M_CAP,
 			Kind::Clock => M_KEY | M_LEN | M_RESOLVE | M_CAP,
 			Kind::Listener => M_KEY | M_RESOLVE,
-			Kind::SoundMain | Kind::SoundSub | Kind::SubTrack | Kind::SubTrackNested => M_LEN | M_DROPS | M_ORDER | M_CAP,
+			Kind::SoundMain
+			| Kind::SoundSub
+			| Kind::SoundSpatial
+			| Kind::SubTrack
+			| Kind::SubTrackNested
+			| Kind::SubTrackSpatial
+			| Kind::SubTrackOfSpatial => M_LEN | M_DROPS | M_ORDER | M_CAP,
 			Kind::SendTrack => M_KEY | M_LEN | M_DROPS | M_ORDER | M_IDENT | M_RESOLVE | M_CAP,
 		}
 	}
 	fn default_cap(self) -> usize {
 		match self {
-			Kind::Modulator => 16,
+			Kind::Modulator | Kind::ModBuiltin => 16,
 			Kind::Clock => 8,
 			Kind::Listener => 8,
-			Kind::SoundMain | Kind::SoundSub | Kind::SubTrack | Kind::SubTrackNested => 128,
 			Kind::SendTrack => 16,
+			_ => 128,
+		}
+	}
+	fn is_sound(self) -> bool {
+		matches!(self, Kind::SoundMain | Kind::SoundSub | Kind::SoundSpatial)
+	}
+	fn is_sub_track(self) -> bool {
+		matches!(self, Kind::SubTrack | Kind::SubTrackNested | Kind::SubTrackSpatial | Kind::SubTrackOfSpatial)
+	}
+	/// how a creation of this kind can fail, as the code orders things (table in C08/Model.v):
+	/// (late, built) = (the user code that fails runs AFTER try_reserve, a payload had been built)
+	fn fail_shape(self) -> Option<(bool, bool)> {
+		match self {
+			// SoundData::into_sound fails: before the reservation, no payload
+			k if k.is_sound() => Some((false, false)),
+			// an effect's init unwinds out of add_sub_track: before the reservation, the track is dropped
+			k if k.is_sub_track() => Some((false, true)),
+			// an effect's init unwinds out of add_send_track: the key is reserved
+			Kind::SendTrack => Some((true, true)),
+			// the user's ModulatorBuilder unwinds: the key is reserved, nothing was built
+			Kind::Modulator => Some((true, false)),
+			// add_clock / add_listener run no user code
+			_ => None,
 		}
 	}
 	/// bound on successful creations per history (send tracks: one binary digit of an f32 per id)
@@ -103,6 +165,13 @@ impl Kind {
 			_ => 5,
 		}
 	}
+	/// length of the exhaustively enumerated histories that contain failing creations (quick tier)
+	fn exhaustive_fail_len(self) -> usize {
+		match self {
+			Kind::SoundMain | Kind::SoundSub | Kind::SoundSpatial => 5,
+			_ => 4,
+		}
+	}
 }
 
 #[derive(Clone, Copy, PartialEq, Eq, Debug)]
@@ -110,19 +179,23 @@ enum Op {
 	Create,
 	Mark(usize),
 	Callback,
+	/// a creation attempt that fails the way `Kind::fail_shape` says
+	CreateFailing,
 }
-fn ops_term(ops: &[Op]) -> String {
+fn ops_term_of(kind: Kind, ops: &[Op]) -> String {
+	let (late, built) = kind.fail_shape().unwrap_or((false, false));
 	ops.iter()
 		.map(|o| match o {
 			Op::Create => "OCreate".to_string(),
 			Op::Mark(p) => format!("OMark {p}"),
 			Op::Callback => "OCallback".to_string(),
+			Op::CreateFailing => format!("OCreateFailing {late} {built}"),
 		})
 		.collect::<Vec<_>>()
 		.join("; ")
 }
 fn case_term(kind: Kind, cap: usize, ops: &[Op]) -> String {
-	format!("CHist {} {} {} {} [{}]", kind.selfref(), kind.prebuild(), cap, kind.mask(), ops_term(ops))
+	format!("CHist {} {} {} {} [{}]", kind.selfref(), kind.prebuild(), cap, kind.mask(), ops_term_of(kind, ops))
 }
 
 fn lk<T>(m: &Mutex<T>) -> MutexGuard<'_, T> {
@@ -147,8 +220,10 @@ struct Shared {
 	recv: Mutex<Vec<(usize, f32)>>,
 	mod_ids: Mutex<Vec<ModulatorId>>,
 	clock_ids: Mutex<Vec<ClockId>>,
-	q_mod: Mutex<Option<Vec<Option<f64>>>>,
-	q_clock: Mutex<Option<Vec<bool>>>,
+	/// per modulator id: (Info::modulator_value, value of a Parameter linked to the id with Value::FromModulator)
+	q_mod: Mutex<Option<Vec<(Option<f64>, f64)>>>,
+	/// per clock id: (Info::clock_info is Some, Info::when_to_start(ClockTime of that clock) is not Never)
+	q_clock: Mutex<Option<Vec<(bool, bool)>>>,
 	/// by creation index: what the query sound on the listener's spatial track saw in the current callback
 	q_listener: Mutex<Vec<Option<bool>>>,
 }
@@ -201,18 +276,50 @@ enum Query {
 struct QuerySound {
 	sh: Arc<Shared>,
 	what: Query,
+	/// one parameter per modulator id handed out so far, linked with `Value::FromModulator`
+	params: Vec<Parameter<f64>>,
 }
+impl QuerySound {
+	fn new(sh: Arc<Shared>, what: Query) -> Self {
+		QuerySound { sh, what, params: Vec::with_capacity(4096) }
+	}
+}
+/// value a linked parameter has before its modulator has ever resolved
+const PARAM_DEFAULT: f64 = -1.0;
 impl Sound for QuerySound {
-	fn process(&mut self, _out: &mut [Frame], _dt: f64, info: &Info) {
+	fn process(&mut self, _out: &mut [Frame], dt: f64, info: &Info) {
 		match self.what {
 			Query::Mod => {
 				let ids = lk(&self.sh.mod_ids).clone();
-				let r: Vec<Option<f64>> = ids.iter().map(|id| info.modulator_value(*id)).collect();
+				while self.params.len() < ids.len() && self.params.len() < self.params.capacity() {
+					let id = ids[self.params.len()];
+					// the identity on [0, 2^20] (exact in f64)
+					let mapping = Mapping { input_range: (0.0, 1048576.0), output_range: (0.0, 1048576.0), easing: Easing::Linear };
+					self.params.push(Parameter::new(Value::FromModulator { id, mapping }, PARAM_DEFAULT));
+				}
+				let mut r: Vec<(Option<f64>, f64)> = Vec::with_capacity(ids.len());
+				for (j, id) in ids.iter().enumerate() {
+					let direct = info.modulator_value(*id);
+					let linked = match self.params.get_mut(j) {
+						Some(p) => {
+							p.update(dt, info);
+							p.value()
+						}
+						None => direct.unwrap_or(PARAM_DEFAULT),
+					};
+					r.push((direct, linked));
+				}
 				*lk(&self.sh.q_mod) = Some(r);
 			}
 			Query::Clock => {
 				let ids = lk(&self.sh.clock_ids).clone();
-				let r: Vec<bool> = ids.iter().map(|id| info.clock_info(*id).is_some()).collect();
+				let r: Vec<(bool, bool)> = ids
+					.iter()
+					.map(|id| {
+						let t = ClockTime { clock: *id, ticks: 0, fraction: 0.0 };
+						(info.clock_info(*id).is_some(), info.when_to_start(t) != WhenToStart::Never)
+					})
+					.collect();
 				*lk(&self.sh.q_clock) = Some(r);
 			}
 			Query::Listener(j) => {
@@ -237,6 +344,42 @@ impl SoundData for Boxed {
 		Ok((self.0, ()))
 	}
 }
+
+/// sound data that cannot be turned into a sound
+#[derive(Clone, Copy, PartialEq, Eq, Debug)]
+enum FailHow {
+	Err,
+	Panic,
+}
+struct FailingData(FailHow);
+impl SoundData for FailingData {
+	type Error = &'static str;
+	type Handle = ();
+	fn into_sound(self) -> Result<(Box<dyn Sound>, ()), &'static str> {
+		match self.0 {
+			FailHow::Err => Err("probe: into_sound fails"),
+			FailHow::Panic => panic!("probe: into_sound panics"),
+		}
+	}
+}
+/// a decoder that cannot seek: `StreamingSoundData::into_sound` fails while setting the decoder up
+struct BadDecoder;
+impl Decoder for BadDecoder {
+	type Error = &'static str;
+	fn sample_rate(&self) -> u32 {
+		1000
+	}
+	fn num_frames(&self) -> usize {
+		64
+	}
+	fn decode(&mut self) -> Result<Vec<Frame>, &'static str> {
+		Ok(vec![Frame::ZERO; 4])
+	}
+	fn seek(&mut self, _index: usize) -> Result<usize, &'static str> {
+		Err("probe: the decoder cannot seek")
+	}
+}
+const PROBE_PANIC: &str = "probe:";
 
 struct ProbeMod {
 	pid: usize,
@@ -267,10 +410,15 @@ impl Drop for ProbeMod {
 }
 struct ProbeModBuilder {
 	sh: Arc<Shared>,
+	/// unwind instead of building (user code running between try_reserve and insert_with_key)
+	fail: bool,
 }
 impl ModulatorBuilder for ProbeModBuilder {
 	type Handle = (ModulatorId, usize, Arc<AtomicBool>);
 	fn build(self, id: ModulatorId) -> (Box<dyn Modulator>, Self::Handle) {
+		if self.fail {
+			panic!("probe: the modulator builder panics");
+		}
 		// only reached after a successful reservation: the payload id is consumed here
 		let pid = self.sh.next_pid.fetch_add(1, Ordering::SeqCst);
 		let fin = Arc::new(AtomicBool::new(false));
@@ -282,8 +430,14 @@ struct ProbeEffect {
 	pid: usize,
 	sh: Arc<Shared>,
 	record_input: bool,
+	fail_init: bool,
 }
 impl Effect for ProbeEffect {
+	fn init(&mut self, _sample_rate: u32, _internal_buffer_size: usize) {
+		if self.fail_init {
+			panic!("probe: the effect's init panics");
+		}
+	}
 	fn on_start_processing(&mut self) {
 		lk(&self.sh.order).push(self.pid);
 	}
@@ -305,11 +459,12 @@ struct ProbeEffectBuilder {
 	pid: usize,
 	sh: Arc<Shared>,
 	record_input: bool,
+	fail_init: bool,
 }
 impl EffectBuilder for ProbeEffectBuilder {
 	type Handle = ();
 	fn build(self) -> (Box<dyn Effect>, ()) {
-		(Box::new(ProbeEffect { pid: self.pid, sh: self.sh, record_input: self.record_input }), ())
+		(Box::new(ProbeEffect { pid: self.pid, sh: self.sh, record_input: self.record_input, fail_init: self.fail_init }), ())
 	}
 }
 
@@ -332,16 +487,38 @@ enum CreateRes {
 	Created(Option<(i128, i128)>),
 	Limit,
 }
+/// outcome of a creation attempt that is meant to fail
+enum FailRes {
+	/// failed the intended way (the intended `Err`, or the probe's own panic)
+	Failed,
+	/// the limit error came first
+	Limit,
+	/// anything else (a resource was created, a foreign panic, …)
+	Unexpected(String),
+}
+
+enum AnyTrack {
+	Plain(TrackHandle),
+	Spatial(SpatialTrackHandle),
+}
+#[allow(dead_code)]
+enum BuiltinMod {
+	Tweener(TweenerHandle),
+	Lfo(LfoHandle),
+}
 
 struct World {
 	kind: Kind,
 	sh: Arc<Shared>,
 	parent: Option<TrackHandle>,
+	parent_sp: Option<SpatialTrackHandle>,
+	listener: Option<ListenerHandle>,
 	flags: Vec<(usize, Arc<AtomicBool>)>,
 	clocks: Vec<(usize, Option<ClockHandle>)>,
 	listeners: Vec<(usize, Option<ListenerHandle>)>,
-	tracks: Vec<(usize, Option<TrackHandle>)>,
+	tracks: Vec<(usize, Option<AnyTrack>)>,
 	sends: Vec<(usize, Option<SendTrackHandle>)>,
+	builtin: Vec<(usize, Option<BuiltinMod>)>,
 	keep_tracks: Vec<TrackHandle>,
 	keep_spatial: Vec<SpatialTrackHandle>,
 	/// payload ids of the successful creations, in creation order
@@ -355,52 +532,71 @@ fn zero3() -> mint::Vector3<f32> {
 fn quat_id() -> mint::Quaternion<f32> {
 	mint::Quaternion { v: zero3(), s: 1.0 }
 }
+fn new_shared() -> Arc<Shared> {
+	Arc::new(Shared {
+		main: std::thread::current().id(),
+		next_pid: AtomicUsize::new(0),
+		drops: Mutex::new(vec![]),
+		order: Mutex::new(vec![]),
+		keys: Mutex::new(vec![]),
+		recv: Mutex::new(vec![]),
+		mod_ids: Mutex::new(vec![]),
+		clock_ids: Mutex::new(vec![]),
+		q_mod: Mutex::new(None),
+		q_clock: Mutex::new(None),
+		q_listener: Mutex::new(vec![]),
+	})
+}
 
 impl World {
 	fn new(kind: Kind, cap: usize) -> World {
 		let mut caps = Capacities::default();
 		let mut main = MainTrackBuilder::new();
 		match kind {
-			Kind::Modulator => caps.modulator_capacity = cap,
+			Kind::Modulator | Kind::ModBuiltin => caps.modulator_capacity = cap,
 			Kind::Clock => caps.clock_capacity = cap,
 			Kind::Listener => caps.listener_capacity = cap,
 			Kind::SoundMain => main = main.sound_capacity(cap),
-			Kind::SubTrack => caps.sub_track_capacity = cap,
+			Kind::SubTrack | Kind::SubTrackSpatial => caps.sub_track_capacity = cap,
 			Kind::SendTrack => caps.send_track_capacity = cap,
-			Kind::SoundSub | Kind::SubTrackNested => {}
+			Kind::SoundSub | Kind::SoundSpatial | Kind::SubTrackNested | Kind::SubTrackOfSpatial => {}
 		}
 		let mut mgr = manager(1000, 16, caps, main);
-		let sh = Arc::new(Shared {
-			main: std::thread::current().id(),
-			next_pid: AtomicUsize::new(0),
-			drops: Mutex::new(vec![]),
-			order: Mutex::new(vec![]),
-			keys: Mutex::new(vec![]),
-			recv: Mutex::new(vec![]),
-			mod_ids: Mutex::new(vec![]),
-			clock_ids: Mutex::new(vec![]),
-			q_mod: Mutex::new(None),
-			q_clock: Mutex::new(None),
-			q_listener: Mutex::new(vec![]),
-		});
+		let sh = new_shared();
 		let mut parent = None;
+		let mut parent_sp = None;
+		let mut listener = None;
+		if matches!(kind, Kind::SoundSpatial | Kind::SubTrackNested | Kind::SubTrackSpatial | Kind::SubTrackOfSpatial) {
+			listener = Some(mgr.add_listener(zero3(), quat_id()).expect("aux listener"));
+		}
 		match kind {
 			Kind::SoundSub => parent = Some(mgr.add_sub_track(TrackBuilder::new().sound_capacity(cap)).expect("parent track")),
 			Kind::SubTrackNested => parent = Some(mgr.add_sub_track(TrackBuilder::new().sub_track_capacity(cap)).expect("parent track")),
+			Kind::SoundSpatial => {
+				let id = listener.as_ref().unwrap().id();
+				parent_sp = Some(mgr.add_spatial_sub_track(id, zero3(), SpatialTrackBuilder::new().sound_capacity(cap)).expect("parent spatial track"))
+			}
+			Kind::SubTrackOfSpatial => {
+				let id = listener.as_ref().unwrap().id();
+				parent_sp = Some(mgr.add_spatial_sub_track(id, zero3(), SpatialTrackBuilder::new().sub_track_capacity(cap)).expect("parent spatial track"))
+			}
 			// the query sound lives in the main track's sound storage, not in the storage under test
-			Kind::Modulator => mgr.play(Boxed(Box::new(QuerySound { sh: sh.clone(), what: Query::Mod }))).expect("query sound"),
-			Kind::Clock => mgr.play(Boxed(Box::new(QuerySound { sh: sh.clone(), what: Query::Clock }))).expect("query sound"),
+			Kind::Modulator | Kind::ModBuiltin => mgr.play(Boxed(Box::new(QuerySound::new(sh.clone(), Query::Mod)))).expect("query sound"),
+			Kind::Clock => mgr.play(Boxed(Box::new(QuerySound::new(sh.clone(), Query::Clock)))).expect("query sound"),
 			_ => {}
 		}
 		World {
 			kind,
 			sh,
 			parent,
+			parent_sp,
+			listener,
 			flags: vec![],
 			clocks: vec![],
 			listeners: vec![],
 			tracks: vec![],
 			sends: vec![],
+			builtin: vec![],
 			keep_tracks: vec![],
 			keep_spatial: vec![],
 			created: vec![],
@@ -410,26 +606,67 @@ impl World {
 
 	fn capacity(&mut self) -> usize {
 		match self.kind {
-			Kind::Modulator => self.mgr.modulator_capacity(),
+			Kind::Modulator | Kind::ModBuiltin => self.mgr.modulator_capacity(),
 			Kind::Clock => self.mgr.clock_capacity(),
 			Kind::Listener => 0,
 			Kind::SoundMain => self.mgr.main_track().sound_capacity(),
 			Kind::SoundSub => self.parent.as_ref().unwrap().sound_capacity(),
-			Kind::SubTrack => self.mgr.sub_track_capacity(),
+			Kind::SoundSpatial => self.parent_sp.as_ref().unwrap().sound_capacity(),
+			Kind::SubTrack | Kind::SubTrackSpatial => self.mgr.sub_track_capacity(),
 			Kind::SubTrackNested => self.parent.as_ref().unwrap().sub_track_capacity(),
+			Kind::SubTrackOfSpatial => self.parent_sp.as_ref().unwrap().sub_track_capacity(),
 			Kind::SendTrack => self.mgr.send_track_capacity(),
 		}
 	}
 	fn len(&mut self) -> usize {
 		match self.kind {
-			Kind::Modulator => self.mgr.num_modulators(),
+			Kind::Modulator | Kind::ModBuiltin => self.mgr.num_modulators(),
 			Kind::Clock => self.mgr.num_clocks(),
 			Kind::Listener => 0,
 			Kind::SoundMain => self.mgr.main_track().num_sounds(),
 			Kind::SoundSub => self.parent.as_ref().unwrap().num_sounds(),
-			Kind::SubTrack => self.mgr.num_sub_tracks(),
+			Kind::SoundSpatial => self.parent_sp.as_ref().unwrap().num_sounds(),
+			Kind::SubTrack | Kind::SubTrackSpatial => self.mgr.num_sub_tracks(),
 			Kind::SubTrackNested => self.parent.as_ref().unwrap().num_sub_tracks(),
+			Kind::SubTrackOfSpatial => self.parent_sp.as_ref().unwrap().num_sub_tracks(),
 			Kind::SendTrack => self.mgr.num_send_tracks(),
+		}
+	}
+
+	/// `play` on the track whose sound storage is under test
+	fn play_any<D: SoundData>(&mut self, data: D) -> Result<D::Handle, PlaySoundError<D::Error>> {
+		match self.kind {
+			Kind::SoundSub => self.parent.as_mut().unwrap().play(data),
+			Kind::SoundSpatial => self.parent_sp.as_mut().unwrap().play(data),
+			_ => self.mgr.play(data),
+		}
+	}
+
+	/// `add_sub_track` / `add_spatial_sub_track` on the owner of the sub-track storage under test; the
+	/// spatial flavour for every other payload of the kinds that mix the two
+	fn add_track_any(&mut self, pid: usize, fail_init: bool) -> Result<AnyTrack, ()> {
+		let sh = self.sh.clone();
+		let eff = ProbeEffectBuilder { pid, sh, record_input: false, fail_init };
+		let spatial = matches!(self.kind, Kind::SubTrackNested | Kind::SubTrackSpatial | Kind::SubTrackOfSpatial) && pid % 2 == 1;
+		if spatial {
+			let id = self.listener.as_ref().unwrap().id();
+			let b = SpatialTrackBuilder::new().with_effect(eff);
+			match self.kind {
+				Kind::SubTrackSpatial => self.mgr.add_spatial_sub_track(id, zero3(), b),
+				Kind::SubTrackNested => self.parent.as_mut().unwrap().add_spatial_sub_track(id, zero3(), b),
+				_ => self.parent_sp.as_mut().unwrap().add_spatial_sub_track(id, zero3(), b),
+			}
+			.map(AnyTrack::Spatial)
+			.map_err(|_| ())
+		} else {
+			let b = TrackBuilder::new().with_effect(eff);
+			match self.kind {
+				Kind::SubTrack | Kind::SubTrackSpatial => self.mgr.add_sub_track(b),
+				Kind::SubTrackNested => self.parent.as_mut().unwrap().add_sub_track(b),
+				_ => self.parent_sp.as_mut().unwrap().add_sub_track(b),
+			}
+			.map(AnyTrack::Plain)
+			.map_err(|_| ())
 		}
 	}
 
@@ -437,7 +674,7 @@ impl World {
 	fn create(&mut self) -> CreateRes {
 		let sh = self.sh.clone();
 		match self.kind {
-			Kind::Modulator => match self.mgr.add_modulator(ProbeModBuilder { sh: sh.clone() }) {
+			Kind::Modulator => match self.mgr.add_modulator(ProbeModBuilder { sh: sh.clone(), fail: false }) {
 				Ok((id, pid, fin)) => {
 					self.flags.push((pid, fin));
 					lk(&sh.mod_ids).push(id);
@@ -446,6 +683,26 @@ impl World {
 				}
 				Err(_) => CreateRes::Limit,
 			},
+			Kind::ModBuiltin => {
+				// the payload id is only consumed by a successful creation (peek, then commit)
+				let pid = sh.next_pid.load(Ordering::SeqCst);
+				let own = 1000.0 + pid as f64;
+				let r = if pid % 2 == 0 {
+					self.mgr.add_modulator(TweenerBuilder { initial_value: own }).map(|h| (h.id(), BuiltinMod::Tweener(h)))
+				} else {
+					self.mgr.add_modulator(LfoBuilder::new().amplitude(0.0).offset(own)).map(|h| (h.id(), BuiltinMod::Lfo(h)))
+				};
+				match r {
+					Ok((id, h)) => {
+						sh.next_pid.fetch_add(1, Ordering::SeqCst);
+						self.builtin.push((pid, Some(h)));
+						lk(&sh.mod_ids).push(id);
+						self.created.push(pid);
+						CreateRes::Created(Some(parse_key(&format!("{:?}", id))))
+					}
+					Err(_) => CreateRes::Limit,
+				}
+			}
 			Kind::Clock => match self.mgr.add_clock(ClockSpeed::TicksPerSecond(1.0)) {
 				Ok(h) => {
 					let pid = sh.next_pid.fetch_add(1, Ordering::SeqCst);
@@ -467,19 +724,18 @@ impl World {
 					lk(&sh.q_listener).push(None);
 					// a spatial track bound to this listener with a query sound on it (other storages)
 					let mut t = self.mgr.add_spatial_sub_track(id, zero3(), SpatialTrackBuilder::new()).expect("aux spatial track");
-					t.play(Boxed(Box::new(QuerySound { sh: sh.clone(), what: Query::Listener(j) }))).expect("aux query sound");
+					t.play(Boxed(Box::new(QuerySound::new(sh.clone(), Query::Listener(j))))).expect("aux query sound");
 					self.keep_spatial.push(t);
 					CreateRes::Created(Some(parse_key(&format!("{:?}", id))))
 				}
 				Err(_) => CreateRes::Limit,
 			},
-			Kind::SoundMain | Kind::SoundSub => {
+			Kind::SoundMain | Kind::SoundSub | Kind::SoundSpatial => {
 				// the payload is built before the reservation: the id is consumed by every attempt
 				let pid = sh.next_pid.fetch_add(1, Ordering::SeqCst);
 				let fin = Arc::new(AtomicBool::new(false));
 				let data = Boxed(Box::new(ProbeSound { pid, sh: sh.clone(), fin: fin.clone() }));
-				let r = if self.kind == Kind::SoundMain { self.mgr.play(data) } else { self.parent.as_mut().unwrap().play(data) };
-				match r {
+				match self.play_any(data) {
 					Ok(()) => {
 						self.flags.push((pid, fin));
 						self.created.push(pid);
@@ -489,11 +745,9 @@ impl World {
 					Err(_) => panic!("unexpected play error"),
 				}
 			}
-			Kind::SubTrack | Kind::SubTrackNested => {
+			Kind::SubTrack | Kind::SubTrackNested | Kind::SubTrackSpatial | Kind::SubTrackOfSpatial => {
 				let pid = sh.next_pid.fetch_add(1, Ordering::SeqCst);
-				let b = TrackBuilder::new().with_effect(ProbeEffectBuilder { pid, sh: sh.clone(), record_input: false });
-				let r = if self.kind == Kind::SubTrack { self.mgr.add_sub_track(b) } else { self.parent.as_mut().unwrap().add_sub_track(b) };
-				match r {
+				match self.add_track_any(pid, false) {
 					Ok(h) => {
 						self.tracks.push((pid, Some(h)));
 						self.created.push(pid);
@@ -504,7 +758,7 @@ impl World {
 			}
 			Kind::SendTrack => {
 				let pid = sh.next_pid.fetch_add(1, Ordering::SeqCst);
-				let b = SendTrackBuilder::new().with_effect(ProbeEffectBuilder { pid, sh: sh.clone(), record_input: true });
+				let b = SendTrackBuilder::new().with_effect(ProbeEffectBuilder { pid, sh: sh.clone(), record_input: true, fail_init: false });
 				match self.mgr.add_send_track(b) {
 					Ok(h) => {
 						let id = h.id();
@@ -520,6 +774,62 @@ impl World {
 					Err(_) => CreateRes::Limit,
 				}
 			}
+		}
+	}
+
+	/// one creation attempt that is meant to fail (`Kind::fail_shape`); `i` (the position of the operation
+	/// in the history) selects among the ways a sound can fail.  Panics are caught here.
+	fn create_failing(&mut self, i: usize) -> FailRes {
+		let sh = self.sh.clone();
+		let own_panic = |o: &Outcome<FailRes>| matches!(o, Outcome::Panic(_)) && last_panic().starts_with(PROBE_PANIC);
+		let r: Outcome<FailRes> = match self.kind {
+			k if k.is_sound() => match i % 3 {
+				1 => catch(|| match self.play_any(FailingData(FailHow::Err)) {
+					Err(PlaySoundError::IntoSoundError(_)) => FailRes::Failed,
+					Err(PlaySoundError::SoundLimitReached) => FailRes::Limit,
+					Err(_) => FailRes::Unexpected("unknown play error".into()),
+					Ok(()) => FailRes::Unexpected("play succeeded although into_sound failed".into()),
+				}),
+				0 => catch(|| match self.play_any(StreamingSoundData::from_decoder(BadDecoder)) {
+					Err(PlaySoundError::IntoSoundError(_)) => FailRes::Failed,
+					Err(PlaySoundError::SoundLimitReached) => FailRes::Limit,
+					Err(_) => FailRes::Unexpected("unknown play error".into()),
+					Ok(_) => FailRes::Unexpected("play succeeded although the decoder cannot be set up".into()),
+				}),
+				_ => catch(|| match self.play_any(FailingData(FailHow::Panic)) {
+					Err(PlaySoundError::SoundLimitReached) => FailRes::Limit,
+					_ => FailRes::Unexpected("play returned although into_sound panicked".into()),
+				}),
+			},
+			k if k.is_sub_track() => {
+				// the effect (the probe payload) exists before add_sub_track is called
+				let pid = sh.next_pid.fetch_add(1, Ordering::SeqCst);
+				catch(|| match self.add_track_any(pid, true) {
+					Err(()) => FailRes::Limit,
+					Ok(_) => FailRes::Unexpected("the track was created although an effect's init panicked".into()),
+				})
+			}
+			Kind::SendTrack => {
+				let pid = sh.next_pid.fetch_add(1, Ordering::SeqCst);
+				let b = SendTrackBuilder::new().with_effect(ProbeEffectBuilder { pid, sh: sh.clone(), record_input: true, fail_init: true });
+				catch(|| match self.mgr.add_send_track(b) {
+					Err(_) => FailRes::Limit,
+					Ok(_) => FailRes::Unexpected("the send track was created although an effect's init panicked".into()),
+				})
+			}
+			Kind::Modulator => catch(|| match self.mgr.add_modulator(ProbeModBuilder { sh: sh.clone(), fail: true }) {
+				Err(_) => FailRes::Limit,
+				Ok(_) => FailRes::Unexpected("the modulator was created although its builder panicked".into()),
+			}),
+			_ => Outcome::Ok(FailRes::Unexpected("this kind has no failing creation".into())),
+		};
+		if own_panic(&r) {
+			return FailRes::Failed;
+		}
+		match r {
+			Outcome::Ok(x) => x,
+			Outcome::Panic(_) => FailRes::Unexpected(format!("foreign panic: {}", last_panic())),
+			Outcome::Hang => FailRes::Unexpected("hang".into()),
 		}
 	}
 
@@ -546,6 +856,11 @@ impl World {
 			}
 		}
 		for (pid, h) in self.sends.iter_mut() {
+			if *pid == p {
+				drop(h.take());
+			}
+		}
+		for (pid, h) in self.builtin.iter_mut() {
 			if *pid == p {
 				drop(h.take());
 			}
@@ -581,20 +896,33 @@ impl World {
 		lk(&self.sh.keys).clone()
 	}
 	/// for every id ever returned, in creation order: 0 does not resolve, 1 resolves (to its own
-	/// payload where that can be told), 2 resolves to another payload
+	/// payload where that can be told), 2 resolves to another payload — or the two APIs that take the id
+	/// disagree (modulators: `Info::modulator_value` and a `Parameter` linked with `Value::FromModulator`;
+	/// clocks: `Info::clock_info` and `Info::when_to_start` of a `ClockTime` of that clock)
 	fn resolve(&self) -> Vec<i128> {
 		let n = self.created.len();
 		match self.kind {
-			Kind::Modulator => {
+			Kind::Modulator | Kind::ModBuiltin => {
 				let q = lk(&self.sh.q_mod).clone().unwrap_or_default();
 				(0..n)
-					.map(|j| match q.get(j).copied().flatten() {
-						None => 0,
-						Some(v) => {
-							if v == 1000.0 + self.created[j] as f64 {
-								1
-							} else {
-								2
+					.map(|j| {
+						let own = 1000.0 + self.created[j] as f64;
+						match q.get(j).copied() {
+							None => 0,
+							// the linked parameter keeps its last value (its own modulator's, or the default)
+							Some((None, linked)) => {
+								if linked == own || linked == PARAM_DEFAULT {
+									0
+								} else {
+									2
+								}
+							}
+							Some((Some(v), linked)) => {
+								if v == own && linked == own {
+									1
+								} else {
+									2
+								}
 							}
 						}
 					})
@@ -602,7 +930,13 @@ impl World {
 			}
 			Kind::Clock => {
 				let q = lk(&self.sh.q_clock).clone().unwrap_or_default();
-				(0..n).map(|j| if q.get(j).copied().unwrap_or(false) { 1 } else { 0 }).collect()
+				(0..n)
+					.map(|j| match q.get(j).copied().unwrap_or((false, false)) {
+						(true, true) => 1,
+						(false, false) => 0,
+						_ => 2,
+					})
+					.collect()
 			}
 			Kind::Listener => {
 				let q = lk(&self.sh.q_listener).clone();
@@ -669,22 +1003,69 @@ struct RefSim {
 	removed_n: usize,
 	rejected_n: usize,
 	reuse: bool,
+	/// (late, built) of the kind's failing creation
+	fail_shape: Option<(bool, bool)>,
+	/// failed creation attempts
+	failed_n: usize,
+	/// successful creations after a failed attempt
+	created_after_failure: usize,
+	/// slots lost to user code that unwound with the key reserved (`late` failures only; what the code does
+	/// on the unchanged tree, see the notes of the run)
+	leaked: usize,
 }
 impl RefSim {
-	fn new(cap: usize, prebuild: bool) -> Self {
-		RefSim { cap, prebuild, next: 0, res: vec![], rejected: vec![], removed_n: 0, rejected_n: 0, reuse: false }
+	fn new(kind: Kind, cap: usize) -> Self {
+		RefSim {
+			cap,
+			prebuild: kind.prebuild(),
+			next: 0,
+			res: vec![],
+			rejected: vec![],
+			removed_n: 0,
+			rejected_n: 0,
+			reuse: false,
+			fail_shape: kind.fail_shape(),
+			failed_n: 0,
+			created_after_failure: 0,
+			leaked: 0,
+		}
 	}
 	/// alive or awaiting removal
 	fn live(&self) -> usize {
 		self.res.iter().filter(|r| r.st != RState::Removed).count()
 	}
+	/// what the count has to be: created - removed (+ the slots of the `late` failures)
+	fn count(&self) -> usize {
+		self.live() + self.leaked
+	}
 	fn would_succeed(&self) -> bool {
-		self.live() < self.cap
+		self.count() < self.cap
+	}
+	/// a creation attempt that fails; returns false if the limit error has to come first (key reserved
+	/// first and no slot available: the failing user code never runs)
+	fn fail(&mut self) -> bool {
+		let (late, built) = self.fail_shape.unwrap_or((false, false));
+		if late && !self.would_succeed() {
+			self.record_create(false);
+			return false;
+		}
+		self.failed_n += 1;
+		if late {
+			self.leaked += 1;
+		}
+		if built {
+			self.rejected.push(self.next);
+			self.next += 1;
+		}
+		true
 	}
 	fn record_create(&mut self, success: bool) {
 		if success {
 			if self.removed_n > 0 {
 				self.reuse = true;
+			}
+			if self.failed_n > 0 {
+				self.created_after_failure += 1;
 			}
 			self.res.push(RRes { pid: self.next, marked: false, st: RState::Queued });
 			self.next += 1;
@@ -730,7 +1111,7 @@ impl RefSim {
 		self.rejected.contains(&p) || self.res.iter().any(|r| r.pid == p && r.st == RState::Removed)
 	}
 	fn nontrivial(&self) -> bool {
-		self.removed_n > 0 && (self.rejected_n > 0 || self.reuse)
+		(self.removed_n > 0 && (self.rejected_n > 0 || self.reuse)) || self.created_after_failure > 0
 	}
 }
 
@@ -743,18 +1124,26 @@ struct HistOut {
 	fail: Option<String>,
 	nontrivial: bool,
 }
+/// failing creation attempts / of these: user code that unwound with the key reserved and lost the slot
+static FAILED_CREATIONS: AtomicUsize = AtomicUsize::new(0);
+static LATE_LEAKS: AtomicUsize = AtomicUsize::new(0);
 
 fn run_history(kind: Kind, cap: usize, ops: &[Op]) -> HistOut {
+	run_history_f(kind, cap, ops, None)
+}
+/// `flavour`: the way every failing `play` of the history fails (0 a streaming sound whose decoder cannot
+/// seek, 1 `into_sound` returns `Err`, 2 `into_sound` panics) instead of the choice by position
+fn run_history_f(kind: Kind, cap: usize, ops: &[Op], flavour: Option<usize>) -> HistOut {
 	let mask = kind.mask();
 	let has = |b: i128| mask & b != 0;
 	let mut w = World::new(kind, cap);
-	let mut rf = RefSim::new(cap, kind.prebuild());
+	let mut rf = RefSim::new(kind, cap);
 	let mut obs: Vec<i128> = vec![];
 	let mut fail: Option<String> = None;
 	let mut flag = |i: usize, what: String| {
 		if fail.is_none() {
-			let at = if i == usize::MAX { "start".to_string() } else { format!("op #{i} ({})", ops_term(&ops[i..i + 1])) };
-			fail = Some(format!("{} capacity {} ops [{}] at {}: {}", kind.name(), cap, ops_term(ops), at, what));
+			let at = if i == usize::MAX { "start".to_string() } else { format!("op #{i} ({})", ops_term_of(kind, &ops[i..i + 1])) };
+			fail = Some(format!("{} capacity {} ops [{}] at {}: {}", kind.name(), cap, ops_term_of(kind, ops), at, what));
 		}
 	};
 	if has(M_CAP) {
@@ -774,7 +1163,7 @@ fn run_history(kind: Kind, cap: usize, ops: &[Op]) -> HistOut {
 		match *op {
 			Op::Create => {
 				let expect_ok = rf.would_succeed();
-				let alive = rf.live();
+				let alive = rf.count();
 				let r = catch(|| w.create());
 				let success = match r {
 					Outcome::Ok(CreateRes::Created(k)) => {
@@ -799,7 +1188,17 @@ fn run_history(kind: Kind, cap: usize, ops: &[Op]) -> HistOut {
 					Outcome::Ok(CreateRes::Limit) => {
 						obs.push(1);
 						if expect_ok {
-							flag(i, format!("limit error although only {alive} resources are alive or awaiting removal"));
+							if rf.failed_n > 0 && rf.leaked == 0 {
+								flag(
+									i,
+									format!(
+										"limit error although only {alive} of {cap} resources are alive or awaiting removal ({} earlier creation attempts failed; a failed creation must not use up a slot)",
+										rf.failed_n
+									),
+								);
+							} else {
+								flag(i, format!("limit error although only {alive} resources are alive or awaiting removal"));
+							}
 						}
 						false
 					}
@@ -818,6 +1217,47 @@ fn run_history(kind: Kind, cap: usize, ops: &[Op]) -> HistOut {
 				if success {
 					resolved_once.push(false);
 					stopped.push(false);
+				}
+			}
+			Op::CreateFailing => {
+				let (late, _built) = kind.fail_shape().unwrap_or((false, false));
+				let before = if has(M_LEN) { Some(w.len()) } else { None };
+				let occupied = rf.count();
+				let full = !rf.would_succeed();
+				let r = w.create_failing(flavour.unwrap_or(i));
+				match &r {
+					FailRes::Failed => {
+						obs.push(4);
+						if late && full {
+							flag(i, format!("the user code ran although all {cap} slots are taken ({occupied} alive, awaiting removal or lost)"));
+						}
+					}
+					FailRes::Limit => {
+						obs.push(1);
+						// before the reservation nothing is asked of the storage: a limit error can only be
+						// excused (not demanded) when the storage is in fact full
+						if !full {
+							flag(i, format!("limit error from a failing creation although only {occupied} of {cap} slots are taken"));
+						}
+					}
+					FailRes::Unexpected(m) => {
+						obs.push(5);
+						flag(i, format!("failing creation: {m}"));
+					}
+				}
+				if late && matches!(r, FailRes::Limit) {
+					rf.record_create(false);
+				} else {
+					rf.fail();
+				}
+				if !late {
+					// the property: a creation that did not succeed leaves the count exactly as it was
+					if let Some(b) = before {
+						let a = w.len();
+						if a != b {
+							flag(i, format!("the count went from {b} to {a} over a creation that FAILED (nothing was created, nothing removed)"));
+						}
+					}
 				}
 			}
 			Op::Mark(p) => {
@@ -896,8 +1336,17 @@ fn run_history(kind: Kind, cap: usize, ops: &[Op]) -> HistOut {
 		if has(M_LEN) {
 			let n = w.len();
 			obs.push(n as i128);
-			if n != rf.live() {
-				flag(i, format!("reported count {n}, but created - removed = {}", rf.live()));
+			if n != rf.count() {
+				if rf.leaked > 0 {
+					flag(i, format!("reported count {n}, but created - removed = {} (+ {} slots lost to user code that unwound with the key reserved)", rf.live(), rf.leaked));
+				} else if rf.failed_n > 0 {
+					flag(
+						i,
+						format!("reported count {n}, but created - removed = {} ({} creation attempts failed before anything was created: they must not be counted)", rf.live(), rf.failed_n),
+					);
+				} else {
+					flag(i, format!("reported count {n}, but created - removed = {}", rf.live()));
+				}
 			}
 			if n > cap {
 				flag(i, format!("reported count {n} exceeds the capacity"));
@@ -924,6 +1373,8 @@ fn run_history(kind: Kind, cap: usize, ops: &[Op]) -> HistOut {
 		}
 	}
 	let nontrivial = rf.nontrivial();
+	FAILED_CREATIONS.fetch_add(rf.failed_n, Ordering::SeqCst);
+	LATE_LEAKS.fetch_add(rf.leaked, Ordering::SeqCst);
 	drop(w);
 	HistOut { obs, fail, nontrivial }
 }
@@ -940,7 +1391,7 @@ struct Gen {
 }
 impl Gen {
 	fn new(kind: Kind, cap: usize) -> Self {
-		Gen { rf: RefSim::new(cap, kind.prebuild()), ops: vec![], max_success: kind.max_success() }
+		Gen { rf: RefSim::new(kind, cap), ops: vec![], max_success: kind.max_success() }
 	}
 	fn create(&mut self) {
 		if self.rf.res.len() >= self.max_success && self.rf.would_succeed() {
@@ -953,6 +1404,13 @@ impl Gen {
 	fn callback(&mut self) {
 		self.rf.callback();
 		self.ops.push(Op::Callback);
+	}
+	/// a failing creation (nothing for the kinds that have none)
+	fn fail(&mut self) {
+		if self.rf.fail_shape.is_some() {
+			self.rf.fail();
+			self.ops.push(Op::CreateFailing);
+		}
 	}
 	fn mark(&mut self, p: usize) {
 		self.rf.mark(p);
@@ -989,9 +1447,10 @@ impl Gen {
 	}
 }
 
-/// all histories of exactly `len` operations over {Create, Callback, Mark oldest, Mark newest}
-fn enumerate(kind: Kind, cap: usize, len: usize) -> Vec<Vec<Op>> {
-	fn go(rf: &RefSim, ops: &mut Vec<Op>, len: usize, out: &mut Vec<Vec<Op>>) {
+/// all histories of exactly `len` operations over {Create, Callback, Mark oldest, Mark newest}, or — with
+/// failures — over these and CreateFailing, restricted to the histories with at least one failing creation
+fn enumerate(kind: Kind, cap: usize, len: usize, with_failures: bool) -> Vec<Vec<Op>> {
+	fn go(rf: &RefSim, ops: &mut Vec<Op>, len: usize, fails: bool, out: &mut Vec<Vec<Op>>) {
 		if ops.len() == len {
 			out.push(ops.clone());
 			return;
@@ -1000,14 +1459,21 @@ fn enumerate(kind: Kind, cap: usize, len: usize) -> Vec<Vec<Op>> {
 			let mut r2 = rf.clone();
 			r2.create();
 			ops.push(Op::Create);
-			go(&r2, ops, len, out);
+			go(&r2, ops, len, fails, out);
 			ops.pop();
 		}
 		{
 			let mut r2 = rf.clone();
 			r2.callback();
 			ops.push(Op::Callback);
-			go(&r2, ops, len, out);
+			go(&r2, ops, len, fails, out);
+			ops.pop();
+		}
+		if fails {
+			let mut r2 = rf.clone();
+			r2.fail();
+			ops.push(Op::CreateFailing);
+			go(&r2, ops, len, fails, out);
 			ops.pop();
 		}
 		let m = rf.markable();
@@ -1024,20 +1490,58 @@ fn enumerate(kind: Kind, cap: usize, len: usize) -> Vec<Vec<Op>> {
 			let mut r2 = rf.clone();
 			r2.mark(p);
 			ops.push(Op::Mark(p));
-			go(&r2, ops, len, out);
+			go(&r2, ops, len, fails, out);
 			ops.pop();
 		}
 	}
 	let mut out = vec![];
-	go(&RefSim::new(cap, kind.prebuild()), &mut vec![], len, &mut out);
+	go(&RefSim::new(kind, cap), &mut vec![], len, with_failures && kind.fail_shape().is_some(), &mut out);
+	if with_failures {
+		out.retain(|ops| ops.contains(&Op::CreateFailing));
+	}
 	out
 }
 
 fn gen_random(r: &mut Rng, kind: Kind, cap: usize) -> Vec<Op> {
 	let len = r.range(5, 40) as usize;
 	let mut g = Gen::new(kind, cap);
+	let choices = if kind.fail_shape().is_some() { 18 } else { 13 };
 	while g.ops.len() < len {
-		match r.below(13) {
+		match r.below(choices) {
+			13 | 14 => g.fail(),
+			15 => {
+				// as many failures as there are slots (or a few), then a creation
+				let k = if cap <= 16 { cap.max(1) as u64 } else { 1 + r.below(5) };
+				for _ in 0..k {
+					g.fail();
+					if r.chance(1, 3) {
+						g.callback();
+					}
+				}
+				g.create();
+			}
+			16 => {
+				// a failure while a removal is pending / right after a slot was freed
+				g.mark_random(r);
+				g.fail();
+				g.callback();
+				g.fail();
+				g.create();
+			}
+			17 => {
+				// a failure on a full storage, then free one slot and re-create
+				if cap <= 16 {
+					g.fill();
+				}
+				g.fail();
+				g.create();
+				g.mark_random(r);
+				g.callback();
+				g.callback();
+				g.fail();
+				g.create();
+				g.create();
+			}
 			0 | 1 => g.create(),
 			2 => {
 				// create burst around the limit
@@ -1106,9 +1610,93 @@ fn gen_boundary(kind: Kind, cap: usize) -> Vec<Vec<Op>> {
 		out.push(vec![Op::Callback, Op::Create]);
 		out.push(vec![Op::Create, Op::Callback, Op::Create, Op::Callback]);
 		out.push(vec![Op::Callback, Op::Callback, Op::Create, Op::Create, Op::Callback, Op::Create]);
+		if kind.fail_shape().is_some() {
+			out.push(vec![Op::CreateFailing]);
+			out.push(vec![Op::CreateFailing, Op::Create, Op::Callback, Op::CreateFailing, Op::Create]);
+		}
 		return out;
 	}
 	let big = cap > 16;
+	if kind.fail_shape().is_some() {
+		// a failed creation on an empty storage, callbacks, then the whole capacity is still there
+		// (seeded/C08-reserve-leak-on-failed-sound/demo.rs, first test, with capacity 2)
+		{
+			let mut g = Gen::new(kind, cap);
+			g.callback();
+			g.fail();
+			g.callback();
+			g.callback();
+			if !big {
+				g.fill();
+				g.create();
+				g.callback();
+				g.mark_all();
+				g.callback();
+			} else {
+				g.create();
+				g.callback();
+			}
+			out.push(g.ops);
+		}
+		// more failures than slots, spread over callbacks, then a creation (demo.rs, second test, capacity 3)
+		{
+			let mut g = Gen::new(kind, cap);
+			g.callback();
+			for _ in 0..(cap.min(16) + 1) {
+				g.fail();
+				g.callback();
+			}
+			g.create();
+			if !big {
+				g.fill();
+				g.create();
+			}
+			g.callback();
+			out.push(g.ops);
+		}
+		// as many failures as slots back to back, no callback at all
+		{
+			let mut g = Gen::new(kind, cap);
+			for _ in 0..cap.min(16) {
+				g.fail();
+			}
+			g.create();
+			g.callback();
+			g.fail();
+			g.create();
+			out.push(g.ops);
+		}
+		if !big {
+			// failures on a full storage; then every slot is freed and refilled
+			let mut g = Gen::new(kind, cap);
+			g.fill();
+			g.fail();
+			g.callback();
+			g.fail();
+			g.create();
+			g.mark_all();
+			g.fail();
+			g.callback();
+			g.fail();
+			g.fill();
+			g.create();
+			g.callback();
+			out.push(g.ops);
+			// failures interleaved with the reuse of one slot
+			let mut g = Gen::new(kind, cap);
+			for _ in 0..3 {
+				g.create();
+				g.fail();
+				g.callback();
+				g.mark_newest();
+				g.fail();
+				g.callback();
+			}
+			g.fill();
+			g.create();
+			out.push(g.ops);
+		}
+	}
 	// fill exactly to capacity, then one more
 	{
 		let mut g = Gen::new(kind, cap);
@@ -1226,7 +1814,7 @@ fn emit(s: &mut Session, seen: &mut HashSet<String>, kind: Kind, cap: usize, ops
 		return;
 	}
 	let h = run_history(kind, cap, ops);
-	let key = if h.nontrivial { Some(format!("{}/{}/{}", kind.name(), cap, ops_term(ops))) } else { None };
+	let key = if h.nontrivial { Some(format!("{}/{}/{}", kind.name(), cap, ops_term_of(kind, ops))) } else { None };
 	s.case(kind.name(), term.clone(), &h.obs, key);
 	if let Some(what) = h.fail {
 		// capacity 0 (F2, repaired in /repo 1316c08) is a regression case like any other
@@ -1340,7 +1928,7 @@ fn stress(kind: Kind, cap: usize, iters: usize, rng: &mut Rng) -> StressOut {
 	let mut create = |mgr: &mut kira::AudioManager<SBackend>| -> Outcome<Option<(Option<(i128, i128)>, Arc<AtomicBool>)>> {
 		let sh = sh.clone();
 		catch(move || match kind {
-			Kind::Modulator => match mgr.add_modulator(ProbeModBuilder { sh: sh.clone() }) {
+			Kind::Modulator => match mgr.add_modulator(ProbeModBuilder { sh: sh.clone(), fail: false }) {
 				Ok((id, _pid, fin)) => Some((Some(parse_key(&format!("{:?}", id))), fin)),
 				Err(_) => None,
 			},
@@ -1559,7 +2147,7 @@ fn f27_replay(kind: Kind) -> F27Out {
 	let create = |mgr: &mut kira::AudioManager<SBackend>| -> Outcome<Option<Arc<AtomicBool>>> {
 		let sh = sh.clone();
 		catch(move || match kind {
-			Kind::Modulator => mgr.add_modulator(ProbeModBuilder { sh: sh.clone() }).ok().map(|(_, _, fin)| fin),
+			Kind::Modulator => mgr.add_modulator(ProbeModBuilder { sh: sh.clone(), fail: false }).ok().map(|(_, _, fin)| fin),
 			_ => {
 				let pid = sh.next_pid.fetch_add(1, Ordering::SeqCst);
 				let fin = Arc::new(AtomicBool::new(false));
@@ -1683,6 +2271,8 @@ fn parse_ops(s: &str) -> Vec<Op> {
 				Some(Op::Create)
 			} else if t == "OCallback" {
 				Some(Op::Callback)
+			} else if t.starts_with("OCreateFailing") {
+				Some(Op::CreateFailing)
 			} else if let Some(p) = t.strip_prefix("OMark") {
 				p.trim().parse().ok().map(Op::Mark)
 			} else {
@@ -1722,7 +2312,7 @@ pub fn run(args: &Args) {
 		"From Coq Require Import ZArith List Bool.\nFrom KV Require Import Base.Outcome Base.Corr C08.Model C08.Run.\nImport ListNotations.\nLocal Open Scope Z_scope.",
 		"run",
 		400,
-		"one case = one history of create / mark-for-removal / device-callback operations on one resource storage (modulators, clocks, listeners, sounds of the main track and of a sub-track, sub-tracks of the mixer and of a track, send tracks) of a fresh manager, callbacks on a second OS thread; distinct = distinct (kind, capacity, operation list); non-trivial = at least one resource was removed AND (a creation was rejected OR a freed slot was reused)",
+		"one case = one history of create / failing-create / mark-for-removal / device-callback operations on one resource storage (modulators, clocks, listeners, sounds of the main track, of a sub-track and of a spatial sub-track, sub-tracks of the mixer (plain, and plain + spatial mixed), of a track and of a spatial track, send tracks) of a fresh manager, callbacks on a second OS thread; distinct = distinct (kind, capacity, operation list); non-trivial = (at least one resource was removed AND (a creation was rejected OR a freed slot was reused)) OR a creation succeeded after a failed attempt",
 	);
 	s.keep_case_text = true;
 	let mut seen: HashSet<String> = HashSet::new();
@@ -1733,12 +2323,26 @@ pub fn run(args: &Args) {
 		// (a) exhaustive
 		let l = kind.exhaustive_len() + if args.thorough { 2 } else { 0 };
 		for cap in [1usize, 2] {
-			for ops in enumerate(kind, cap, l) {
+			for ops in enumerate(kind, cap, l, false) {
 				emit(&mut s, &mut seen, kind, cap, &ops);
 			}
 		}
 		for len in 1..=(if args.thorough { 5 } else { 3 }) {
-			for ops in enumerate(kind, 0, len) {
+			for ops in enumerate(kind, 0, len, false) {
+				emit(&mut s, &mut seen, kind, 0, &ops);
+			}
+		}
+		// (a') exhaustive, with failing creations
+		if kind.fail_shape().is_some() {
+			let lf = kind.exhaustive_fail_len() + if args.thorough { 2 } else { 0 };
+			for cap in [1usize, 2] {
+				for len in 1..=lf {
+					for ops in enumerate(kind, cap, len, true) {
+						emit(&mut s, &mut seen, kind, cap, &ops);
+					}
+				}
+			}
+			for ops in enumerate(kind, 0, 3, true) {
 				emit(&mut s, &mut seen, kind, 0, &ops);
 			}
 		}
@@ -1761,6 +2365,37 @@ pub fn run(args: &Args) {
 			emit(&mut s, &mut seen, kind, cap, &ops);
 		}
 		eprintln!("C08 {}: {} cases in {:.1}s", kind.name(), s.model_cases - before, t_kind.elapsed().as_secs_f64());
+	}
+	// (f) corpus: the histories of seeded/C08-reserve-leak-on-failed-sound/demo.rs (a failed play on an empty
+	// main track of capacity 2, callbacks, the whole capacity is still there, count = created - removed;
+	// capacity + 1 failed plays on a sub-track of capacity 3 spread over callbacks, then a play), on all
+	// three tracks and with each way a play can fail; and the witnesses of `reserve_then_fail_refuted`
+	// (user code unwinding with the key reserved) on the two storages where the unchanged code runs user
+	// code at that point
+	{
+		use Op::*;
+		let demo1 = vec![Callback, CreateFailing, Callback, Callback, Create, Create, Create, Callback, Mark(0), Mark(1), Callback];
+		let demo2 = vec![Callback, CreateFailing, Callback, CreateFailing, Callback, CreateFailing, Callback, CreateFailing, Callback, Create];
+		for kind in [Kind::SoundMain, Kind::SoundSub, Kind::SoundSpatial] {
+			for (cap, ops) in [(2usize, &demo1), (3usize, &demo2)] {
+				for flavour in [1usize, 0, 2] {
+					let h = run_history_f(kind, cap, ops, Some(flavour));
+					let term = case_term(kind, cap, ops);
+					s.case("corpus_failed_play", term.clone(), &h.obs, Some(format!("corpus/{}/{}/{}", kind.name(), cap, flavour)));
+					if let Some(what) = h.fail {
+						let how = ["a streaming sound whose decoder cannot seek", "into_sound returns Err", "into_sound panics"][flavour];
+						s.fail(term, format!("{what} [every failing play: {how}]"), None);
+					}
+				}
+			}
+		}
+		let one = vec![CreateFailing, Callback, Create, Callback, Create];
+		let two = vec![CreateFailing, CreateFailing, Callback, Create, Callback, Callback, Create];
+		for kind in [Kind::Modulator, Kind::SendTrack] {
+			for ops in [&one, &two] {
+				emit(&mut s, &mut seen, kind, 2, ops);
+			}
+		}
 	}
 	// (e) F27 regression: the racy schedule replayed deterministically, compared with the model
 	for kind in [Kind::SoundMain, Kind::Modulator] {
@@ -1825,6 +2460,11 @@ pub fn run(args: &Args) {
 	}
 	s.notes.push(format!(
 		"two-thread stress (real concurrency, monitors only): {ok} successful creates ({reuse} on a reused slot), {lim} limit errors ({race} of them although num_* read just before was below the capacity: window inside Controller::free), {cb} concurrent callbacks"
+	));
+	s.notes.push(format!(
+		"failing creations in the histories: {}; of these {} were user code unwinding with the key already reserved (a panicking ModulatorBuilder::build, a send-track effect whose init panics): the unchanged code loses the slot for good (num_* counts it, capacity shrinks), exactly as the model's X_fail_late predicts (theorem reserve_then_fail_refuted); compared with the model, not raised as a violation",
+		FAILED_CREATIONS.load(Ordering::SeqCst),
+		LATE_LEAKS.load(Ordering::SeqCst)
 	));
 	s.notes.push(format!("harness time {:.1}s", t0.elapsed().as_secs_f64()));
 	s.finish();
